@@ -1846,6 +1846,10 @@ class Engine:
         if isinstance(c, PRec):
             if isinstance(k, ZV) and k.pyval is not None:
                 f = dict(c.fields)
+                old = f.get(k.pyval)
+                if isinstance(v, PRec) and not v.fields and isinstance(old, ZV) and isinstance(old.shape, TDict):
+                    from .builtins import empty_dict      # rec['k'] = {} where the field is declared as a dict: the empty dict of that shape
+                    v = ZV(old.shape, empty_dict(old.shape))
                 f[k.pyval] = v
                 return PRec(f)
             raise Unsupported('symbolic key store into a record')
